@@ -59,7 +59,7 @@ Definition to_ev (x : xev) : nat * ev :=
   | XAdv dt => (0%nat, Advance dt)
   end.
 
-Definition ocode (o : outcome) : Z := match o with OK => 0 | AcceptableErr => 1 | UnacceptableErr => 2 | Panics => 3 | PanicsNil => 4 end.
+Definition ocode (o : outcome) : Z := match o with OK => 0 | AcceptableErr => 1 | UnacceptableErr => 2 | Panics => 3 | PanicsNil => 4 | InnerUnavailable => 5 end.
 Definition code_of (o : obs) : Z :=
   match o with
   | ONone => 0 | OLetIn => 1
@@ -118,7 +118,9 @@ Definition pred (which : nat) (arg : Z) : bool :=
 (* mixed streams: the gRPC code that comes back for a class, and the mark *)
 Definition m_code (class : nat) (code : Z) : option Z :=
   match class with
-  | 0%nat => Some code | 1%nat => Some 4 | 2%nat => Some 1 | _ => None      (* None: panic *)
+  | 0%nat => Some code | 1%nat => Some 4 | 2%nat => Some 1
+  | 6%nat => Some 4          (* the backend overruns the client's timeout: the transport answers DeadlineExceeded *)
+  | _ => None                (* panic *)
   end.
 Definition m_mark (class : nat) (code : Z) : bool :=
   match m_code class code with Some c => grpc_acceptable c | None => false end.
@@ -127,7 +129,8 @@ Definition m_mark (class : nat) (code : Z) : bool :=
 Definition h_shape (class : nat) (code : Z) : shape :=
   match class with 0%nat => SHeader code | 1%nat => SWrite | 2%nat => SNothing | _ => SPanic end.
 Definition h_mark (class : nat) (code : Z) : bool := http_mark true (h_shape class code).
-Definition is_http (side : nat) : bool := (3 <=? side)%nat.
+Definition is_http (side : nat) : bool := Nat.eqb side 3 || Nat.eqb side 4.
+Definition is_chain (side : nat) : bool := Nat.eqb side 5.     (* the composed client chain of rpc/internal/client.go *)
 
 (* frozen clock, one breaker PER NAME: (accepts, total) only grow; a call may be cut off only when the excess of ITS
    name is positive (the coin is not scripted here: both answers are allowed then), and is let in and marked otherwise *)
@@ -150,6 +153,16 @@ Fixpoint h_status (calls : list (nat * Z * nat)) (rej : list bool) (st : list Z)
   | [], [], [] => true
   | (cl, c, _) :: cs, r :: rs, x :: xs =>
       (x =? (if r then 503 else http_status true (h_shape cl c))) && h_status cs rs xs
+  | _, _, _ => false
+  end.
+
+(* composed client chain: the gRPC code the caller gets back (100: cut off): it is the STATUS code, so an overrun
+   client timeout comes back -- and reaches the breaker's predicate -- as DeadlineExceeded, not as a raw context error *)
+Fixpoint c_status (calls : list (nat * Z * nat)) (rej : list bool) (st : list Z) : bool :=
+  match calls, rej, st with
+  | [], [], [] => true
+  | (cl, c, _) :: cs, r :: rs, x :: xs =>
+      (x =? (if r then 100 else match m_code cl c with Some k => k | None => -2 end)) && c_status cs rs xs
   | _, _, _ => false
   end.
 
@@ -188,7 +201,8 @@ Definition model_ok (c : case) : bool :=
       (code =? http_code (hguard k) (hshape k st)) && Bool.eqb ok (http_mark (hguard k) (hshape k st))
   | RCase rows => forallb r_row_ok rows
   | MCase side calls rej st =>
-      if is_http side then m_run h_mark [] calls rej && h_status calls rej st else m_run m_mark [] calls rej
+      if is_http side then m_run h_mark [] calls rej && h_status calls rej st
+      else m_run m_mark [] calls rej && (if is_chain side then c_status calls rej st else true)
   end.
 
 (* ---------- the property on the observations ---------- *)
@@ -301,6 +315,6 @@ Definition spec_ok (c : case) : bool :=
          off; HTTP: the client gets 500 for every panic let in and 503 when cut off *)
       let ben := if is_http side then h_benign else m_benign in
       m_run ben [] calls rej &&
-      (if is_http side then h_status calls rej st else true) &&
+      (if is_http side then h_status calls rej st else if is_chain side then c_status calls rej st else true) &&
       (if 40 <=? m_hot ben [] calls rej then existsb (fun r => r) rej else true)
   end.
